@@ -222,7 +222,6 @@ class Ctx:
         self.level = "proof"
         self._scratch: Path | None = None
         self.known = load_known_findings(prop)
-        shutil.rmtree(VERIF / "replays" / prop, ignore_errors=True)      # replays of earlier runs are stale
         self.deadline = self.t0 + float(os.environ.get("VERIF_DEADLINE_S", "1500" if tier == "quick" else "7000"))
 
     # ---- scratch space (outside /repo and /verif) ----
@@ -240,6 +239,10 @@ class Ctx:
         if self._scratch is not None:
             shutil.rmtree(self._scratch, ignore_errors=True)
             self._scratch = None
+
+    def clear_replays(self):
+        """replays of earlier runs are stale (called by main.py before a run, never before --replay)"""
+        shutil.rmtree(VERIF / "replays" / self.prop, ignore_errors=True)
 
     def quick(self) -> bool:
         return self.tier == "quick"
